@@ -3,6 +3,7 @@ import re
 from prophyc import model
 from prophyc.model import DISC_SIZE, BUILTIN_SIZES
 from prophyc.generators.base import GenerateError, GeneratorBase, TranslatorBase, check_cpp_names
+from prophyc.generators.base import CPP_FULL_RUNTIME_NAMES, CPP_FULL_MEMBER_NAMES
 
 BUILTIN2C = {
     'i8': 'int8_t',
@@ -639,7 +640,8 @@ class CppFullGenerator(GeneratorBase):
     }
 
     def check_nodes(self, nodes):
-        check_cpp_names(nodes)
+        """ a union holds `enum _discriminator` """
+        check_cpp_names(nodes, generated=r"_discriminator\Z", runtime=CPP_FULL_RUNTIME_NAMES, members=CPP_FULL_MEMBER_NAMES, arm_types=True)
         for n in nodes:
             if isinstance(n, (model.Struct, model.Union)) and n.byte_size is None:
                 raise GenerateError('{0} byte size unknown'.format(n.name))
